@@ -70,7 +70,7 @@ def explore(ctx):
         "rule": "random argument tuples per library procedure (car cdr cons, the c[ad]{2,3}r compositions, list make-list null? "
                 "pair? list? append (variadic, improper last argument, empty lists in every position) map for-each fold-left "
                 "fold-right list-tail list-ref last-pair memq memv equal? apply, and compositions): proper and improper lists up to "
-                "length 12 with nesting, atoms incl. strings (equal? compares them by content), indices in and just outside range, ticking procedure arguments (once per element); the "
+                "length 12 with nesting, atoms incl. strings and characters (equal? compares them by content), indices in and just outside range, ticking procedure arguments (once per element); the "
                 "result is compared model vs implementation and against an independent model on python lists (value, number of "
                 "calls of the procedure argument, error when the list is too short); plus the list procedures on long lists of distinct integers "
                 "(lengths 31-257 around powers of two, 100 and 200; to 385 in the thorough tier) with order-sensitive procedure arguments. non-trivial = distinct call with a value",
